@@ -489,9 +489,27 @@ class StmtMixin:
         elif isinstance(t, ast.Starred):
             self._collect_targets(t.value, names, fields)
         elif isinstance(t, ast.Attribute):
-            fields.add(t.attr)
+            fields.add(self.alias_field(t.attr))
         elif isinstance(t, ast.Subscript):
             self._collect_targets(t.value, names, fields)
+
+    def alias_field(self, attr):
+        """field behind a read-only alias property `def p(self): return self._f` of the class under verification"""
+        ci = self.frames[-1].cls if self.frames else None
+        if self.cur_contract is not None and self.cur_contract.self_cls and self.frame_depth == 0:
+            try:
+                ci = self.repo.cls(self.cur_contract.self_cls)
+            except KeyError:
+                pass
+        if ci is None:
+            return attr
+        fi = self.repo.lookup_method(ci, attr)
+        if fi is not None and fi.is_property and self.repo.lookup_setter(ci, attr) is None:
+            body = [b for b in fi.node.body if not (isinstance(b, ast.Expr) and isinstance(b.value, ast.Constant))]
+            if len(body) == 1 and isinstance(body[0], ast.Return) and isinstance(body[0].value, ast.Attribute) \
+                    and isinstance(body[0].value.value, ast.Name) and body[0].value.value.id == "self":
+                return body[0].value.attr
+        return attr
 
     def havoc_like(self, v, name):
         """fresh value of the same shape as v"""
